@@ -241,10 +241,20 @@ const HangSeconds = 60
 func startWatchdog() {
 	debug.SetMaxStack(256 << 20)
 	go func() {
+		// The limit is counted in half-second ticks during which the same case was seen running, not in wall
+		// time: when the whole sandbox is frozen for a while (a snapshot being taken) the clock jumps but
+		// only one tick passes, so a frozen process is not mistaken for a hanging call.
+		var last int64
+		ticks := 0
 		for {
 			time.Sleep(500 * time.Millisecond)
 			st := wdStart.Load()
-			if st != 0 && time.Since(time.Unix(0, st)) > HangSeconds*time.Second {
+			if st != 0 && st == last {
+				ticks++
+			} else {
+				ticks, last = 0, st
+			}
+			if st != 0 && ticks >= 2*HangSeconds {
 				sc, _ := wdScope.Load().(string)
 				fmt.Fprintf(os.Stderr, "\nVERIF-DEAD kind=hang scope=%s idx=%d\n", sc, wdIdx.Load())
 				os.Exit(3)
